@@ -209,11 +209,13 @@ def rule_used(ctx, rep):
     n = 0
     problems = set()
 
-    def run(oracle):
+    def run(oracle, setext=True):
         it = Interp(model, loop_bound=1, while_bound=4)
         it.reset_run(oracle)
         install_rx_hooks(it, [])
         it.gstate[(PKG + '.block_token', '_token_types')] = list(default.block_types)
+        # setext recognition on (top level, list items) and off (what Quote.read sets while it tokenizes its content)
+        it.cstate[(para.qualname, 'parse_setext')] = setext
         log = []
         for c in checkers:
             f = c.lookup('check_interrupts_paragraph')[1]
@@ -229,7 +231,9 @@ def rule_used(ctx, rep):
         except (Raised, LoopTruncated) as e:
             return None
         return (r, log, list(oracle.trace))
-    for trace, res in enumerate_paths(run, 2000):
+    import functools
+    both = [(flag, x) for flag in (True, False) for x in enumerate_paths(functools.partial(run, setext=flag), 2000)]
+    for flag, (trace, res) in both:
         if res is None:
             continue
         r, log, tr = res
@@ -259,8 +263,9 @@ def rule_used(ctx, rep):
                              % sorted(others - set(names)))
             if tb_cls.name in names and setext_pos is not None and seq.index(tb_cls.name) < setext_pos:
                 problems.add('ThematicBreak is consulted before the setext-underline test')
-            if tb_cls.name not in names and not is_setext_path and setext_pos is not None:
-                problems.add('ThematicBreak is not consulted on a continuation line that is not a setext underline')
+            if tb_cls.name not in names and not is_setext_path:
+                problems.add('ThematicBreak is not consulted on a continuation line that is not a setext underline%s'
+                             % ('' if flag else ' when setext recognition is off (inside a block quote)'))
     ok = not problems and n > 0
     rep.instance('R-INT-USED')
     rep.obligation('R-INT-USED', ok, {'paths': n, 'predicates': [c.name for c in checkers]})
